@@ -308,7 +308,10 @@ func (rm *RequestManager) processResponses(p peer.ID,
 		attribute.Int("blockCount", len(blks)),
 	))
 	defer span.End()
-	filteredResponses := rm.processExtensions(responses, p)
+	// only the peer a request was sent to may answer it: drop what other peers
+	// send for it before any hook sees it
+	filteredResponses := rm.filterResponsesFromOtherPeers(responses, p)
+	filteredResponses = rm.processExtensions(filteredResponses, p)
 	filteredResponses = rm.filterResponsesForPeer(filteredResponses, p)
 	blkMap := make(map[cid.Cid][]byte, len(blks))
 	for _, blk := range blks {
@@ -323,6 +326,18 @@ func (rm *RequestManager) processResponses(p peer.ID,
 	}
 	rm.processTerminations(filteredResponses)
 	log.Debugf("end processing responses for peer %s", p)
+}
+
+func (rm *RequestManager) filterResponsesFromOtherPeers(responses []gsmsg.GraphSyncResponse, p peer.ID) []gsmsg.GraphSyncResponse {
+	responsesFromPeer := make([]gsmsg.GraphSyncResponse, 0, len(responses))
+	for _, response := range responses {
+		requestStatus, ok := rm.inProgressRequestStatuses[response.RequestID()]
+		if ok && requestStatus.p != p {
+			continue
+		}
+		responsesFromPeer = append(responsesFromPeer, response)
+	}
+	return responsesFromPeer
 }
 
 func (rm *RequestManager) filterResponsesForPeer(responses []gsmsg.GraphSyncResponse, p peer.ID) []gsmsg.GraphSyncResponse {
